@@ -564,7 +564,8 @@ impl Adf {
                             ));
                         }
                     }
-                    res
+                    // an inconsistent cube is skipped, the remaining cubes still have to be visited
+                    Ok::<(), ()>(())
                 });
             log::trace!("results found so far:{}", result.len());
             // checked one alternative, we can now conclude that only the other option may work
